@@ -55,7 +55,7 @@ type faultFS struct {
 	creates int // NewWriter calls so far
 	open    int // writers not yet closed
 	ops     int
-	failAt int // index of the operation (create, write, close) that fails; -1 = none
+	failAt  int // index of the operation (create, write, close) that fails; -1 = none
 }
 
 func newFaultFS(failAt int) *faultFS { return &faultFS{files: map[string]*ffsFile{}, failAt: failAt} }
@@ -141,7 +141,7 @@ type faultSQL struct {
 	during    []int    // per operation: number of file writers created so far if one is open, else -1
 	fs        *faultFS // to note which file is being written when an operation happens
 	failAt    int      // -1 = none
-	failEvery int // > 0: every failEvery-th operation fails (concurrency soak)
+	failEvery int      // > 0: every failEvery-th operation fails (concurrency soak)
 	dsn       string
 	drv       *sqlite3.SQLiteDriver
 }
